@@ -346,6 +346,7 @@ def run(check, tier, seed):
     import contracts.fsarray as FSA
     for c in CONTRACTS:
         verify(c, tier, check)
+    verify(F.normalize_slice, tier, check, prefix="C04")       # (region bounds go through it: callee contract decided here too)
     for c in FSA.ALL:
         c.probe = contract_probe
         # (post.region_rows_show_the_block needs 17-19 s of z3's sequence solver on an idle machine and cvc5 does not decide it: the
